@@ -416,6 +416,13 @@ func init() {
 			},
 		}
 	}
+	Registry["C15"] = &Check{
+		Run: runC15,
+		Replay: func(rf *ReplayFile) int {
+			fmt.Println("replay of C15 re-runs the artefact comparison on this tree:")
+			return runC15("quick", 0)
+		},
+	}
 	bfsCheckT("C08", "netmap-history", func(tier string) func() Driver {
 		if tier == "thorough" {
 			return func() Driver { return NewSnapDriver([]int{0, 1, 2, 3, 4, 5, 6, 7, 8, 9, 10, 11, 12}, 30, 2) }
